@@ -15,10 +15,12 @@ import (
 	"path/filepath"
 	"sort"
 	"strings"
+	"sync"
 	"sync/atomic"
 	"time"
 
 	"github.com/coredhcp/coredhcp/handler"
+	"github.com/coredhcp/coredhcp/plugins/leasetime"
 	rangeplugin "github.com/coredhcp/coredhcp/plugins/range"
 	"github.com/insomniacslk/dhcp/dhcpv4"
 
@@ -35,18 +37,23 @@ func init() {
 	for _, id := range []string{"C02", "C03"} {
 		id := id
 		reg.Register(&reg.Check{ID: id, Level: map[string]string{"C02": "model_checking", "C03": "fault_enumeration"}[id],
-			Run:    func(r *ev.Run) { describe(r); reg.Isolated(r, id, 3*time.Hour) },
-			Worker: func(a []string) int { r := ev.New(id, reg.Tier, map[string]string{"C02": "model_checking", "C03": "fault_enumeration"}[id]); run(r, id); return reg.WorkerExit(r) },
+			Run: func(r *ev.Run) { describe(r); reg.Isolated(r, id, 3*time.Hour) },
+			Worker: func(a []string) int {
+				r := ev.New(id, reg.Tier, map[string]string{"C02": "model_checking", "C03": "fault_enumeration"}[id])
+				run(r, id)
+				return reg.WorkerExit(r)
+			},
 			Replay: func(r *ev.Run, c json.RawMessage) { replayCase(r, id, c) }})
 	}
 }
 
 type Conf struct {
-	Start   string   `json:"start"`
-	End     string   `json:"end"`
-	Lease   string   `json:"lease"`
-	Prefill int      `json:"prefill,omitempty"` // clients bound before the explored history starts
-	MACs    []string `json:"macs"`              // hex chaddr of the clients in the alphabet
+	Start    string   `json:"start"`
+	End      string   `json:"end"`
+	Lease    string   `json:"lease"`
+	Prefill  int      `json:"prefill,omitempty"`                 // clients bound before the explored history starts
+	PreLease bool     `json:"lease_time_plugin_first,omitempty"` // chain: lease_time 7200s, then range
+	MACs     []string `json:"macs"`                              // hex chaddr of the clients in the alphabet
 }
 
 type Op struct {
@@ -71,7 +78,7 @@ type Sys struct {
 	h      handler.Handler4
 	inst   *rangeplugin.PluginState
 	lease  string
-	first  map[string]string // ghost: chaddr hex -> address first replied
+	first  map[string]string    // ghost: chaddr hex -> address first replied
 	prom   map[string]time.Time // ghost: chaddr hex -> end of the lease last promised, measured from the harness clock before the reply
 	hist   []Op
 	start  uint32
@@ -79,7 +86,7 @@ type Sys struct {
 	dead   bool
 	broken bool
 	aged   map[string]bool // ghost: clients whose lease ran out since they were last answered
-	crash  bool // evaluate the crash/restart oracle after every live op
+	crash  bool            // evaluate the crash/restart oracle after every live op
 }
 
 func ip2u(s string) uint32 { return binary.BigEndian.Uint32(net.ParseIP(s).To4()) }
@@ -282,6 +289,9 @@ func (s *Sys) Apply(op Op, live bool) (obs string) {
 			}
 		}()
 		defer reg.OpBegin(fmt.Sprintf("range %s-%s: %s from %s after %d ops", s.conf.Start, s.conf.End, op.Kind, op.MAC, len(s.hist)-1))()
+		if s.conf.PreLease {
+			resp, _ = preLeaseHandler()(req, resp)
+		}
 		out, stop = s.h(req, resp)
 		return
 	}()
@@ -336,7 +346,7 @@ func (s *Sys) Apply(op Op, live bool) (obs string) {
 			}
 			lt, _ := time.ParseDuration(s.lease)
 			w, _ := pkt.ParseV4(out.ToBytes())
-			if d, n := w.Get(51); n != 1 || len(d) != 4 || binary.BigEndian.Uint32(d) != uint32(lt/time.Second) {
+			if d, n := w.Get(51); !s.conf.PreLease && (n != 1 || len(d) != 4 || binary.BigEndian.Uint32(d) != uint32(lt/time.Second)) {
 				s.violate("C02", "lease-time", fmt.Sprintf("reply carries lease time option %x (x%d), configured %s", d, n, s.lease))
 			}
 			if was {
@@ -349,7 +359,13 @@ func (s *Sys) Apply(op Op, live bool) (obs string) {
 			s.first[op.MAC] = ys
 		}
 		delete(s.aged, op.MAC)
+		// the end of the lease promised to the client is what the reply says (option 51)
 		ltNow, _ := time.ParseDuration(s.lease)
+		if w, err := pkt.ParseV4(out.ToBytes()); err == nil {
+			if d, n := w.Get(51); n == 1 && len(d) == 4 {
+				ltNow = time.Duration(binary.BigEndian.Uint32(d)) * time.Second
+			}
+		}
 		s.prom[op.MAC] = tBefore.Add(ltNow)
 	}
 	if live && s.crash {
@@ -513,7 +529,6 @@ func run(r *ev.Run, id string) {
 
 var runSched = c16.SchedPart("C02", 4)
 
-
 func sweeps(r *ev.Run, id string) {
 	thorough := !r.Quick()
 	// range sizes, filled to exhaustion then everybody asks again, then restart
@@ -567,6 +582,19 @@ func sweeps(r *ev.Run, id string) {
 		s.crashCheck()
 		s.Close()
 		r.Add("renewal_after_real_delay", 1)
+	}
+	if id == "C03" {
+		// another plugin promised a longer lease before range ran: what is stored must cover
+		// what the reply promises
+		c := Conf{Start: "10.0.0.10", End: "10.0.0.13", Lease: "60s", PreLease: true}
+		s := NewSys(r, id, c, true)
+		s.Apply(Op{Kind: "discover", MAC: "020000000a01"}, true)
+		s.Apply(Op{Kind: "request", MAC: "020000000a01"}, true)
+		s.Apply(Op{Kind: "request", MAC: "020000000b02", Host: hex.EncodeToString([]byte("h"))}, true)
+		s.Apply(Op{Kind: "restart", Lease: "60s"}, true)
+		s.Apply(Op{Kind: "request", MAC: "020000000a01"}, true)
+		s.Close()
+		r.Add("chain_lease_time_before_range", 1)
 	}
 	if id != "C03" && !thorough {
 		return
@@ -702,3 +730,21 @@ func runCrashPoints(r *ev.Run) {
 }
 
 var imgs []string
+
+var (
+	preLeaseOnce sync.Once
+	preLeaseH    handler.Handler4
+)
+
+// preLeaseHandler is the real lease_time plugin configured with 7200s (set up once per
+// process: its configuration is a package global).
+func preLeaseHandler() handler.Handler4 {
+	preLeaseOnce.Do(func() {
+		h, err := leasetime.Plugin.Setup4("7200s")
+		if err != nil {
+			panic(err)
+		}
+		preLeaseH = h
+	})
+	return preLeaseH
+}
